@@ -91,7 +91,7 @@ func rectScenario(c *hlib.Ctx) ([]ibox, string) {
 		}
 		return [2]float64{lo, lo + (hi-lo)/2}
 	}
-	switch c.Rng.Intn(8) {
+	switch c.Rng.Intn(13) {
 	case 0:
 		family = "stairs"
 		for k := ri(1, 5); k > 0; k-- {
@@ -138,6 +138,73 @@ func rectScenario(c *hlib.Ctx) ([]ibox, string) {
 		if c.Rng.Intn(2) == 0 {
 			bs = append(bs, attach(block, ri(0, 2), rsg(), rth(0.9), alongOf(block, e)))
 		}
+	case 8, 9:
+		family = "overlap"
+		// boxes that overlap / contain each other / touch with faces of different size: grid planes of one box
+		// pass through the interior of another
+		unit := 1.0
+		if c.Rng.Intn(3) == 0 {
+			unit = pow2(-ri(1, 12))
+		}
+		for k := ri(2, 5); k > 0; k-- {
+			var b ibox
+			for a := 0; a < 3; a++ {
+				b.lo[a] = float64(ri(0, 4)) * unit
+				b.hi[a] = b.lo[a] + float64(ri(1, 4))*unit
+				if c.Rng.Intn(8) == 0 {
+					b.hi[a] = b.lo[a] + thin()*unit
+				}
+			}
+			bs = append(bs, b)
+		}
+	case 10:
+		family = "slab_on_post"
+		// a face of one box lies inside a larger face of the other
+		a := ri(0, 2)
+		post := block
+		slab := block
+		for k := 0; k < 3; k++ {
+			if k == a {
+				if c.Rng.Intn(2) == 0 {
+					slab.lo[k], slab.hi[k] = post.hi[k], post.hi[k]+rth(0.5)[0]
+				} else {
+					slab.lo[k], slab.hi[k] = post.lo[k]-rth(0.5)[0], post.lo[k]
+				}
+				continue
+			}
+			switch c.Rng.Intn(3) {
+			case 0: // sticks out on both sides
+				slab.lo[k], slab.hi[k] = post.lo[k]-ext(), post.hi[k]+ext()
+			case 1: // flush on one side
+				slab.lo[k], slab.hi[k] = post.lo[k], post.hi[k]+ext()
+			default: // strictly inside the post's face
+				d := (post.hi[k] - post.lo[k]) / 4
+				slab.lo[k], slab.hi[k] = post.lo[k]+d, post.hi[k]-d
+			}
+		}
+		bs = append(bs, post, slab)
+		if c.Rng.Intn(2) == 0 {
+			e := ri(0, 2)
+			bs = append(bs, attach(slab, e, rsg(), rth(0.7), alongOf(slab, e)))
+		}
+	case 11:
+		family = "cross"
+		// bars through a common core along two or three axes
+		core := ext()
+		arm := [3]float64{ext(), ext(), ext()}
+		for a := 0; a < 3; a++ {
+			if a == 2 && c.Rng.Intn(2) == 0 {
+				break
+			}
+			var b ibox
+			for k := 0; k < 3; k++ {
+				b.lo[k], b.hi[k] = 0, core
+				if k == a {
+					b.lo[k], b.hi[k] = -arm[a], core+arm[a]
+				}
+			}
+			bs = append(bs, b)
+		}
 	default:
 		family = "plates"
 		// thin plates stacked diagonally in the first / last intervals of one axis
@@ -169,23 +236,64 @@ func rectScenario(c *hlib.Ctx) ([]ibox, string) {
 	return bs, family
 }
 
+// buildRectSet puts boxes idx[…] of bs into a RectSet the way a caller may: box by box with Add, or by building
+// parts as sets of their own and merging them with AddRectSet (recursively, in either role).  The union - all the
+// judgement in Lean knows - does not depend on it.  Returns the set and a description for the replay.
+func buildRectSet(c *hlib.Ctx, bs []ibox, idx []int, merge bool) (*toolbox3d.RectSet, string) {
+	rs := toolbox3d.NewRectSet()
+	add := func(i int) string {
+		b := bs[i]
+		rs.Add(&model3d.Rect{MinVal: model3d.XYZ(b.lo[0], b.lo[1], b.lo[2]), MaxVal: model3d.XYZ(b.hi[0], b.hi[1], b.hi[2])})
+		return fmt.Sprintf("Add(%d)", i)
+	}
+	var how []string
+	for len(idx) > 0 {
+		if !merge || len(idx) == 1 || c.Rng.Intn(3) == 0 {
+			how = append(how, add(idx[0]))
+			idx = idx[1:]
+			continue
+		}
+		k := 1 + c.Rng.Intn(len(idx))
+		if k == len(idx) && len(how) == 0 && len(idx) > 1 {
+			k = len(idx) - 1
+		}
+		sub, d := buildRectSet(c, bs, idx[:k], k > 1 && c.Rng.Intn(2) == 0)
+		rs.AddRectSet(sub)
+		how = append(how, "AddRectSet("+d+")")
+		idx = idx[k:]
+	}
+	return rs, strings.Join(how, ";")
+}
+
 func emitRectSet(c *hlib.Ctx, bs []ibox, family string) {
 	var op string
+	merge := c.Rng.Intn(5) < 3
 	res := guarded(func() string {
-		rs := toolbox3d.NewRectSet()
 		var bw []string
 		for _, b := range bs {
-			rs.Add(&model3d.Rect{MinVal: model3d.XYZ(b.lo[0], b.lo[1], b.lo[2]), MaxVal: model3d.XYZ(b.hi[0], b.hi[1], b.hi[2])})
 			for _, v := range []float64{b.lo[0], b.lo[1], b.lo[2], b.hi[0], b.hi[1], b.hi[2]} {
 				bw = append(bw, hlib.Hex(v))
 			}
 		}
+		idx := make([]int, len(bs))
+		for i := range idx {
+			idx[i] = i
+		}
 		op = fmt.Sprintf("c01 rectset %d %s 0 0", len(bs), strings.Join(bw, " "))
+		rs, how := buildRectSet(c, bs, idx, merge)
+		if strings.Contains(how, "AddRectSet") {
+			c.Stat("c01.rectset.built_with_AddRectSet", 1)
+		}
+		op = fmt.Sprintf("c01 rectset %d %s 0 0 how=%s", len(bs), strings.Join(bw, " "), how)
 		m := rs.Mesh()
 		ids := map[model3d.Coord3D]int{}
 		var coords, tris []string
 		m.Iterate(func(t *model3d.Triangle) {
 			for _, p := range t {
+				if p.X-p.X != 0 || p.Y-p.Y != 0 || p.Z-p.Z != 0 {
+					coords = append(coords, "nonfinite") // NaN is not even a map key
+					continue
+				}
 				if _, ok := ids[p]; !ok {
 					ids[p] = len(ids)
 					coords = append(coords, hlib.Hex(p.X), hlib.Hex(p.Y), hlib.Hex(p.Z))
@@ -193,8 +301,13 @@ func emitRectSet(c *hlib.Ctx, bs []ibox, family string) {
 				tris = append(tris, fmt.Sprint(ids[p]))
 			}
 		})
-		op = fmt.Sprintf("c01 rectset %d %s %d %s %d %s", len(bs), strings.Join(bw, " "), len(ids), strings.Join(coords, " "),
-			len(tris)/3, strings.Join(tris, " "))
+		for _, p := range coords {
+			if p == "nonfinite" {
+				return "nonfinite-vertex"
+			}
+		}
+		op = fmt.Sprintf("c01 rectset %d %s %d %s %d %s how=%s", len(bs), strings.Join(bw, " "), len(ids), strings.Join(coords, " "),
+			len(tris)/3, strings.Join(tris, " "), how)
 		return "balanced=1 fans=1 outward=1 tri=1 wind=1 vol=1"
 	})
 	if op == "" {
